@@ -372,6 +372,12 @@ func runC11(seed int64, tier string, sc *Script) map[string]any {
 	// corpus first: the two witnesses of F3a / F3b
 	runOne("F3a", []tarEnt{{'d', "d/s", ""}, {'s', "d/s/l1", ".."}, {'s', "d/s/l2", "l1/../../victim"}, {'r', "d/s/l2", ""}}, "")
 	runOne("F3b", []tarEnt{{'h', "d/a", "cfile"}, {'r', "d/a", ""}}, "")
+	// hard links whose target is an existing file outside the working directory, named
+	// absolutely or relative to the process directory: refused, and a following regular entry
+	// of the same name must not reach the outside file
+	runOne("hard-abs", []tarEnt{{'h', "d/a", "ABS-OUTSIDE"}, {'r', "d/a", ""}}, "")
+	runOne("hard-abs", []tarEnt{{'d', "d/s", ""}, {'h', "d/s/l1", "ABS-OUTSIDE"}, {'r', "d/s/l1", ""}}, "")
+	runOne("hard-dotdot", []tarEnt{{'h', "d/a", "../outside/victim"}, {'r', "d/a", ""}}, "")
 	// a directory reached through a chain of symlinks: the ancestor check must reject the file beneath it
 	runOne("dir-chain", []tarEnt{{'d', "d/s", ""}, {'s', "d/s/l1", ".."}, {'s', "d/s/l2", "l1/../.."}, {'r', "d/s/l2/x", ""}}, "")
 	runOne("dir-chain-named", []tarEnt{{'d', "d/s", ""}, {'s', "d/s/l1", ".."}, {'s', "d/s/l2", "l1/../.."}}, "d/s/l2/x")
